@@ -330,3 +330,78 @@ pub mod net {
         crate::net_utils::is_global_ip(ip)
     }
 }
+
+/// An endpoint `Context` built like `Core::new` builds it, for doors that need one.
+pub mod ctx {
+    use crate::authentication::Authenticator;
+    use crate::core::{self, Core};
+    use crate::settings::{Settings, TlsHostsSettings};
+    use crate::shutdown::Shutdown;
+    use std::sync::{Arc, Mutex};
+
+    #[derive(Clone)]
+    pub struct Ctx(pub(crate) Arc<core::Context>);
+
+    pub fn make(
+        settings: Settings,
+        hosts: TlsHostsSettings,
+        authenticator: Option<Arc<dyn Authenticator>>,
+    ) -> Result<Ctx, String> {
+        let core = Core::new(settings, authenticator, hosts, Shutdown::new())
+            .map_err(|e| format!("{:?}", e))?;
+        Ok(Ctx(core::verif_hooks::context(&core)))
+    }
+
+    pub fn shutdown(ctx: &Ctx) -> Arc<Mutex<Shutdown>> {
+        ctx.0.shutdown.clone()
+    }
+}
+
+pub mod tcp {
+    use super::ctx::Ctx;
+    use crate::forwarder::{TcpConnectionMeta, TcpConnector};
+    use crate::net_utils::TcpDestination;
+    use crate::tcp_forwarder::TcpForwarder;
+    use crate::{log_utils, tunnel};
+    use std::net::{IpAddr, Ipv4Addr, SocketAddr};
+
+    #[derive(Debug, Clone, PartialEq, Eq)]
+    pub enum Outcome {
+        Connected,
+        Loopback,
+        Nonroutable,
+        Timeout,
+        HostUnreachable,
+        Io(String),
+        Other(String),
+    }
+
+    pub enum Destination {
+        Address(SocketAddr),
+        HostName(String, u16),
+    }
+
+    /// Runs the real `TcpForwarder::connect`; an established connection is closed at once.
+    pub async fn connect(ctx: &Ctx, destination: Destination) -> Outcome {
+        let meta = TcpConnectionMeta {
+            client_address: IpAddr::V4(Ipv4Addr::new(198, 51, 100, 7)),
+            destination: match destination {
+                Destination::Address(a) => TcpDestination::Address(a),
+                Destination::HostName(h, p) => TcpDestination::HostName((h, p)),
+            },
+            auth: None,
+            tls_domain: String::new(),
+            user_agent: None,
+        };
+        let connector: Box<dyn TcpConnector> = Box::new(TcpForwarder::new(ctx.0.clone()));
+        match connector.connect(log_utils::IdChain::empty(), meta).await {
+            Ok(_) => Outcome::Connected,
+            Err(tunnel::ConnectionError::DnsLoopback) => Outcome::Loopback,
+            Err(tunnel::ConnectionError::DnsNonroutable) => Outcome::Nonroutable,
+            Err(tunnel::ConnectionError::Timeout) => Outcome::Timeout,
+            Err(tunnel::ConnectionError::HostUnreachable) => Outcome::HostUnreachable,
+            Err(tunnel::ConnectionError::Io(e)) => Outcome::Io(format!("{:?}", e.kind())),
+            Err(e) => Outcome::Other(e.to_string()),
+        }
+    }
+}
